@@ -149,6 +149,21 @@ func (w *walker) walkObjects(bucket string, live []wEntry, prefix, delim string,
 // walkObjectsSA: with carrySA, every V2 request carries start-after= (empty: from the beginning) in
 // addition to the continuation token, as SDK paginators re-send their original parameters.
 func (w *walker) walkObjectsSA(bucket string, live []wEntry, prefix, delim string, max int, v2 bool, carrySA bool) {
+	w.walkObjectsFrom(bucket, live, prefix, delim, max, v2, carrySA, "")
+}
+
+// walkObjectsFrom: sa != "" -- the walk starts after that key (start-after=<sa>), the parameter is re-sent with every
+// continuation token (which must win), and the expected entries are the live ones after sa.
+func (w *walker) walkObjectsFrom(bucket string, live []wEntry, prefix, delim string, max int, v2 bool, carrySA bool, sa string) {
+	if sa != "" {
+		var rest []wEntry
+		for _, e := range live {
+			if toBytes(e.K) > sa {
+				rest = append(rest, e)
+			}
+		}
+		live = rest
+	}
 	style := "v1"
 	if v2 {
 		style = "v2"
@@ -165,6 +180,9 @@ func (w *walker) walkObjectsSA(bucket string, live []wEntry, prefix, delim strin
 		r := w.x.Build(op)
 		if carrySA {
 			r.Query.Set("start-after", "")
+			if sa != "" {
+				r.Query.Set("start-after", w.x.Conc.Key(sa))
+			}
 		}
 		if hasMarker {
 			if v2 {
@@ -543,6 +561,11 @@ func walkOne(cfg *RunCfg, sysName string, idx int, t *walkTour, kind string, max
 					w.walkObjects(bucket, live, q.p, q.d, max, true)
 					if max <= 2 {
 						w.walkObjectsSA(bucket, live, q.p, q.d, max, true, true)
+						// ... and with a start-after that names the first live key (no delimiter: a start-after inside a
+						// common prefix leaves that prefix optional)
+						if q.d == "" && len(live) >= 2 && w.x.Sys.Paginates() { // (the fallback path ignores markers: everything at once)
+							w.walkObjectsFrom(bucket, live, q.p, q.d, max, true, true, toBytes(live[0].K))
+						}
 					}
 				}
 			}
